@@ -8,6 +8,7 @@
  *   R <peer> [hold]     NON GET /r from fabricated peer <peer>; hold: the handler takes an application reference
  *   C <peer> [hold]     CON GET /r (answered piggybacked)
  *   O <peer>            GET /o Observe=0 (the observer entry holds the session); o <peer> = Observe=1 (cancel)
+ *   P <peer>            the same registration again under another token (replaces the observer entry); p <peer> cancels under that token
  *   A <peer>            GET /a: the handler registers an async entry (it holds the session) and answers nothing yet
  *   a <peer>            the application triggers the async entry of that peer: the handler runs again and answers
  *   U <peer>            the application releases the reference it took on <peer>'s session
@@ -153,12 +154,14 @@ static void log_observers(void) {
   fputs("]}\n", sim_trace);
 }
 
+static int alt_token;              /* the next request uses the peer's second token */
 static void request(int p, const char *path, int con, int obs) {
   uint8_t b[32];
   size_t n = 0;
   uint16_t mid = cmid++;
   b[n++] = (uint8_t)((con ? 0x40 : 0x50) | 1); b[n++] = 1; b[n++] = mid >> 8; b[n++] = mid & 255;
-  b[n++] = (uint8_t)(0x10 + p);                                            /* token */
+  b[n++] = (uint8_t)((alt_token ? 0x90 : 0x10) + p);                       /* token */
+  alt_token = 0;
   if (obs == 0) b[n++] = 0x60; else if (obs > 0) { b[n++] = 0x61; b[n++] = (uint8_t)obs; }
   b[n++] = (uint8_t)((obs >= 0 ? 0x50 : 0xb0) | 1); b[n++] = (uint8_t)path[0];   /* Uri-Path (11) */
   fprintf(sim_trace, "{\"e\":\"Inject\",\"t\":%llu,\"peer\":%d,\"path\":\"%s\",\"con\":%d,\"obs\":%d}\n", (unsigned long long)sim_now, p, path, con, obs);
@@ -263,6 +266,14 @@ int main(int argc, char **argv) {
       hold_next[p] = 0;
     } else if (c == 'O') {
       request(p, "o", 1, 0);
+      log_observers();
+    } else if (c == 'P') {
+      alt_token = 1;
+      request(p, "o", 1, 0);
+      log_observers();
+    } else if (c == 'p') {
+      alt_token = 1;
+      request(p, "o", 1, 1);
       log_observers();
     } else if (c == 'o') {
       request(p, "o", 1, 1);
